@@ -192,7 +192,7 @@ def c09_layouts(tier, seed):
 def _c15_cmd(shape, n):
     if shape[0] == "ring":
         return [P.HARNESS, "ring", str(n), str(shape[1]), str(128 * 1024)]
-    return [P.HARNESS, "tree", str(n), str(128 * 1024)]
+    return [P.HARNESS, shape[0], str(n), str(128 * 1024)]
 
 
 def _c15_edges(shape, n):
@@ -236,12 +236,13 @@ def _c15_irefs(shape, n):
 def c15_rings(tier, seed):
     """C15 on the implementation: three shapes collected by ONE drop on a 128 KiB stack -- a ring, a ring with
     two chords per node (long worklist under a stack discipline) and a ternary tree whose leaves own the root
-    (long worklist under a queue discipline). Counters (one trace, every object visited once, pops <= 1 +
+    (long worklist under a queue discipline) -- and a two-object cycle with n extra outside handles dropped
+    one by one (work per trace must not depend on the number of handles). Counters (one trace, every object visited once, pops <= 1 +
     adoptions), constant stack depth, and linear growth of executed instructions and of CPU time."""
     sizes = [10, 100, 1000, 5000, 20000] if tier == "quick" else [10, 100, 1000, 10000, 50000, 200000]
     rows, hits = [], []
-    for shape in (("ring", 0), ("ring", 2), ("tree",)):
-        name = "ring" if shape[0] == "ring" else "tree"
+    for shape in (("ring", 0), ("ring", 2), ("tree",), ("fan",)):
+        name = shape[0]
         chords = shape[1] if shape[0] == "ring" else -1
         label = "%s%s" % (name, (" chords=%d" % chords) if name == "ring" else "")
         depths = []
@@ -250,10 +251,17 @@ def c15_rings(tier, seed):
             m = dict(re.findall(r"(\w+)=(\S+)", out))
             m["cpu_us"] = str(cpu)
             rows.append({**m, "shape": name, "n": n, "chords": chords, "rc": rc})
-            edges = _c15_edges(shape, n)
-            ok = (rc == 0 and m.get("destroyed") == str(n) and m.get("visits") == str(n)
-                  and m.get("traces") == "1" and int(m.get("pops", 10 ** 12)) <= 1 + edges
-                  and m.get("upgrade") == "false")
+            if name == "fan":
+                # a two-object cycle with n extra outside handles dropped one by one: n + 1 traces of two
+                # objects and two adoptions each; nothing dies before the last handle goes
+                ok = (rc == 0 and m.get("destroyed") == "2" and m.get("destroyed_early") == "0"
+                      and m.get("traces") == str(n + 1) and m.get("visits") == str(2 * (n + 1))
+                      and int(m.get("pops", 10 ** 12)) <= 3 * (n + 1) and m.get("upgrade") == "false")
+            else:
+                edges = _c15_edges(shape, n)
+                ok = (rc == 0 and m.get("destroyed") == str(n) and m.get("visits") == str(n)
+                      and m.get("traces") == "1" and int(m.get("pops", 10 ** 12)) <= 1 + edges
+                      and m.get("upgrade") == "false")
             if ok:
                 depths.append(int(m["depth"]))
             else:
